@@ -320,6 +320,9 @@ class Interp:
             finally:
                 if s.finalbody:
                     self.exec_block(s.finalbody, env)
+        elif isinstance(s, ast.Assert):
+            if not self.truth(self.eval(s.test, env), s.test):
+                raise RaiseSig('AssertionError', ((self.eval(s.msg, env),) if s.msg is not None else ()), s)
         elif isinstance(s, ast.Raise):
             if s.exc is None:
                 raise RaiseSig('<reraise>', (), s)
@@ -2346,7 +2349,11 @@ class Interp:
             self.bad(at, 'call depth exceeded')
         params = [a.arg for a in node.args.args]
         defaults = node.args.defaults
-        if node.args.vararg or node.args.kwarg or node.args.kwonlyargs or len(args) > len(params):
+        if node.args.vararg or node.args.kwarg or getattr(node.args, 'posonlyargs', None):
+            self.bad(at, 'call signature outside the subset')
+        if len(args) > len(params):
+            if node.args.kwonlyargs:
+                raise RaiseSig('TypeError', (f'{node.name}() takes {len(params)} positional arguments but {len(args)} were given',), at)
             self.bad(at, 'call signature outside the subset')
         env = {}
         for i, p in enumerate(params):
@@ -2359,6 +2366,19 @@ class Interp:
                 if di < 0:
                     self.bad(at, 'missing argument')
                 env[p] = self.eval(defaults[di], {})
+        # keyword-only parameters: from the keywords of the call, else their defaults
+        for a, d in zip(node.args.kwonlyargs, node.args.kw_defaults):
+            if kwargs and a.arg in kwargs:
+                env[a.arg] = kwargs[a.arg]
+            elif d is not None:
+                env[a.arg] = self.eval(d, {})
+            else:
+                raise RaiseSig('TypeError', (f'{node.name}() missing keyword-only argument {a.arg}',), at)
+        if kwargs:
+            known = set(params) | {a.arg for a in node.args.kwonlyargs}
+            extra = [k for k in kwargs if k not in known]
+            if extra:
+                raise RaiseSig('TypeError', (f'{node.name}() got an unexpected keyword argument {extra[0]}',), at)
         if _is_generator(node):
             return AGen(self, node, env)
         # decorators: memoisation is state (modelled exactly: the cache is keyed by host equality / hash of the arguments); context-manager, static / class method and
